@@ -285,6 +285,17 @@ def run_cases(cases, timeout_ms=20000, procs=None, mem_mb=4096, binary=None):
     return res
 
 
+def run_isolated(cases, timeout_ms=60000, mem_mb=4096, binary=None, workers=12):
+    """Every case in a fresh process of its own (no history at all)."""
+    from concurrent.futures import ThreadPoolExecutor
+    binary = binary or build_runner()
+    res = {}
+    with ThreadPoolExecutor(max_workers=workers) as ex:
+        for r in ex.map(lambda c: _run_chunk(binary, [c], timeout_ms, mem_mb), cases):
+            res.update(r)
+    return res
+
+
 def b64(b):
     return base64.b64encode(b).decode()
 
